@@ -3,6 +3,7 @@ import Tx3Proofs.C01Assets
 import Tx3Proofs.C01Lovelace
 import Tx3Proofs.C01MultiAsset
 import Tx3Proofs.C01Template
+import Tx3Proofs.C01Spec
 #print axioms Tx3.Lang.eval_int
 #print axioms Tx3.Lang.lower_int
 #print axioms Tx3.Lang.C01_int_fragment
@@ -22,3 +23,5 @@ import Tx3Proofs.C01Template
 #print axioms Tx3.Lang.C01_multi_asset_fragment
 #print axioms Tx3.sumUtxo_spec
 #print axioms Tx3.C01_template_value
+#print axioms Tx3.Lang.eval_lovelace
+#print axioms Tx3.Lang.C01_spec_meets_pipeline
